@@ -135,7 +135,7 @@ func (rn *renderer) call(st stmt) (expr, bind, enc string) {
 	case "m:head":
 		return "m:head()", "m", "str(v1)"
 	case "m:ratelimitWait":
-		return "m:ratelimitWait(1, \"1s\", \"2s\")", "", "str(v1)"
+		return "m:ratelimitWait(5, \"600ms\", \"1s\")", "", "str(v1)"
 	case "b:get", "b:head":
 		return "b:" + st.Op[2:] + "(" + dig(y) + ")", "b", `"blob"`
 	case "r:close":
@@ -164,7 +164,7 @@ func (rn *renderer) call(st stmt) (expr, bind, enc string) {
 	case "m:ratelimit":
 		return "m:ratelimit()", "", "rl(v1)"
 	case "image.ratelimitWait":
-		return "image.ratelimitWait(" + rn.ref(x) + ", 1, \"1s\", \"2s\")", "", "str(v1)"
+		return "image.ratelimitWait(" + rn.ref(x) + ", 5, \"600ms\", \"1s\")", "", "str(v1)"
 	case "blob.get", "blob.head":
 		return st.Op + "(" + rn.ref(x) + ", " + dig(y) + ")", "b", `"blob"`
 	case "reference.new":
